@@ -14,6 +14,7 @@ import (
 
 	"github.com/smart-core-os/sc-api/go/traits"
 	"github.com/smart-core-os/sc-api/go/types"
+	"github.com/smart-core-os/sc-golang/pkg/resource"
 	"github.com/smart-core-os/sc-golang/pkg/trait/airtemperaturepb"
 	"github.com/smart-core-os/sc-golang/pkg/trait/countpb"
 	"github.com/smart-core-os/sc-golang/pkg/trait/electricpb"
@@ -45,6 +46,9 @@ type stack struct {
 	values   []proto.Message
 	bad      []proto.Message
 	decorate func(method string, req protoreflect.Message) // sets sub-resource ids on Get/Pull requests
+	// other deletes (create = false) or creates another record of the collection that holds the addressed record;
+	// nil unless the triple addresses one record of a collection (the servers built on Collection.PullID)
+	other func(create bool) error
 }
 
 type target struct {
@@ -251,11 +255,12 @@ var targets = []*target{
 		}},
 	{ID: "hailpb.ModelServer", Pkg: "hailpb", File: "model_server.go", Type: "ModelServer",
 		Service: "smartcore.traits.HailApi", Update: "UpdateHail",
-		Note: "one hail is created through the model first; Get/Update/Pull address it by id",
+		Note: "two hails are created through the model first; Get/Update/Pull address the first by id, the second is deleted/re-created by Other steps",
 		build: func(safe bool, names []string) *stack {
 			model := hailpb.NewModel()
 			h := must(model.CreateHail(&traits.Hail{Origin: &traits.Hail_Location{Name: "L0"}, State: traits.Hail_CALLED}))
 			id := h.Id
+			otherID := must(model.CreateHail(&traits.Hail{Origin: &traits.Hail_Location{Name: "B0"}, State: traits.Hail_CALLED})).Id
 			var srv traits.HailApiServer = hailpb.NewModelServer(model)
 			return &stack{
 				values: msgs(&traits.Hail{Id: id, Origin: &traits.Hail_Location{Name: "L1"}, Destination: &traits.Hail_Location{Name: "L5"}, State: traits.Hail_CALLED},
@@ -264,6 +269,17 @@ var targets = []*target{
 					&traits.Hail{Id: id, Destination: &traits.Hail_Location{Name: "L3"}, State: traits.Hail_CALLED}),
 				bad: msgs(&traits.Hail{Id: "no-such-hail", State: traits.Hail_BOARDING}, &traits.Hail{State: traits.Hail_BOARDING}),
 				decorate: func(method string, req protoreflect.Message) { setStringField(req, "id", id) },
+				other: func(create bool) error {
+					if create {
+						o, err := model.CreateHail(&traits.Hail{Origin: &traits.Hail_Location{Name: "B1"}, State: traits.Hail_BOARDING})
+						if err == nil {
+							otherID = o.Id
+						}
+						return err
+					}
+					_, err := model.DeleteHail(otherID, resource.WithAllowMissing(true))
+					return err
+				},
 				conn: assemble(safe, names, srv, hailpb.WrapApi, func() (adder, traits.HailApiServer) { r := hailpb.NewApiRouter(); return r, r },
 					func(cc grpc.ClientConnInterface) any { return traits.NewHailApiClient(cc) })}
 		}},
@@ -346,11 +362,12 @@ var targets = []*target{
 		}},
 	{ID: "publicationpb.ModelServer", Pkg: "publicationpb", File: "model_server.go", Type: "ModelServer",
 		Service: "smartcore.traits.PublicationApi", Update: "UpdatePublication",
-		Note: "one publication is created through the model first; Get/Update/Pull address it by id",
+		Note: "two publications are created through the model first; Get/Update/Pull address the first by id, the second is deleted/re-created by Other steps",
 		build: func(safe bool, names []string) *stack {
 			model := publicationpb.NewModel()
 			p := must(model.CreatePublication(&traits.Publication{Id: "pub1", Body: []byte("zero"), MediaType: "text/plain"}))
 			id := p.Id
+			must(model.CreatePublication(&traits.Publication{Id: "pub2", Body: []byte("other")}))
 			var srv traits.PublicationApiServer = publicationpb.NewModelServer(model)
 			return &stack{
 				values: msgs(&traits.Publication{Id: id, Body: []byte("one"), MediaType: "text/plain"},
@@ -359,6 +376,17 @@ var targets = []*target{
 					&traits.Publication{Id: id, Body: []byte("4"), MediaType: "text/x-four"}),
 				bad: msgs(&traits.Publication{Id: "no-such-publication", Body: []byte("x")}, &traits.Publication{Body: []byte("no id")}),
 				decorate: func(method string, req protoreflect.Message) { setStringField(req, "id", id) },
+				other: func(create bool) error {
+					if create {
+						_, err := model.CreatePublication(&traits.Publication{Id: "pub2", Body: []byte("other again")})
+						if status.Code(err) == codes.AlreadyExists || status.Code(err) == codes.FailedPrecondition {
+							return nil
+						}
+						return err
+					}
+					_, err := model.DeletePublication("pub2", resource.WithAllowMissing(true))
+					return err
+				},
 				conn: assemble(safe, names, srv, publicationpb.WrapApi, func() (adder, traits.PublicationApiServer) { r := publicationpb.NewApiRouter(); return r, r },
 					func(cc grpc.ClientConnInterface) any { return traits.NewPublicationApiClient(cc) })}
 		}},
@@ -373,13 +401,14 @@ var targets = []*target{
 		}},
 	{ID: "vendingpb.ModelServer", Pkg: "vendingpb", File: "model_server.go", Type: "ModelServer",
 		Service: "smartcore.traits.VendingApi", Update: "UpdateStock",
-		Note: "one stock record is created through the model first; Get/Update/Pull address it by consumable",
+		Note: "two stock records are created through the model first; Get/Update/Pull address the first by consumable, the second is deleted/re-created by Other steps",
 		build: func(safe bool, names []string) *stack {
 			model := vendingpb.NewModel()
 			q := func(a float32) *traits.Consumable_Quantity {
 				return &traits.Consumable_Quantity{Amount: a, Unit: traits.Consumable_CUP}
 			}
 			must(model.CreateStock(&traits.Consumable_Stock{Consumable: "tea", Remaining: q(100)}))
+			must(model.CreateStock(&traits.Consumable_Stock{Consumable: "coffee", Remaining: q(7)}))
 			var srv traits.VendingApiServer = vendingpb.NewModelServer(model)
 			return &stack{
 				values: msgs(&traits.Consumable_Stock{Consumable: "tea", Remaining: q(90), Used: q(10)},
@@ -388,6 +417,17 @@ var targets = []*target{
 					&traits.Consumable_Stock{Consumable: "tea", Used: q(500)}),
 				bad: msgs(&traits.Consumable_Stock{Consumable: "no-such-consumable", Remaining: q(1)}, &traits.Consumable_Stock{Remaining: q(1)}),
 				decorate: func(method string, req protoreflect.Message) { setStringField(req, "consumable", "tea") },
+				other: func(create bool) error {
+					if create {
+						_, err := model.CreateStock(&traits.Consumable_Stock{Consumable: "coffee", Remaining: q(8)})
+						if status.Code(err) == codes.AlreadyExists || status.Code(err) == codes.FailedPrecondition {
+							return nil
+						}
+						return err
+					}
+					_, err := model.DeleteStock("coffee", resource.WithAllowMissing(true))
+					return err
+				},
 				conn: assemble(safe, names, srv, vendingpb.WrapApi, func() (adder, traits.VendingApiServer) { r := vendingpb.NewApiRouter(); return r, r },
 					func(cc grpc.ClientConnInterface) any { return traits.NewVendingApiClient(cc) })}
 		}},
